@@ -93,6 +93,30 @@ root = logging.getLogger()
 root.handlers[:] = [StaleCounter()]
 root.setLevel(logging.WARNING)
 
+# optional trace of routing decisions (oracle mode only; never compared with the model):
+# every FakeTRX.handle_data_msg(self, src_trx, src_msg, msg) call is recorded as call:<dst>:<src>:<fn>
+import os
+TRACE = os.environ.get("WORLD_TRACE") == "1"
+CALLS = []
+CUR_APP = [None]
+if TRACE:
+    _orig_hdm = FakeTRX.handle_data_msg
+    def _traced_hdm(self, src_trx, src_msg, msg):
+        l = CUR_APP[0].trx_list.trx_list
+        CALLS.append("call:%d:%d:%d" % (l.index(self), l.index(src_trx), src_msg.fn))
+        return _orig_hdm(self, src_trx, src_msg, msg)
+    FakeTRX.handle_data_msg = _traced_hdm
+    # every attempt to send a TRX->L1 message: send:<dst>:<fn>:<rssi>:<toa256>:<nope>
+    import data_if as _data_if
+    _orig_send = _data_if.DATAInterface.send_msg
+    def _traced_send(self, msg, legacy=False):
+        l = CUR_APP[0].trx_list.trx_list
+        k = [i for i, t in enumerate(l) if t.data_if is self]
+        CALLS.append("send:%d:%s:%s:%s:%d" % (k[0] if k else -1, msg.fn, getattr(msg, "rssi", None),
+                     getattr(msg, "toa256", None), int(bool(getattr(msg, "nope_ind", False)))))
+        return _orig_send(self, msg, legacy)
+    _data_if.DATAInterface.send_msg = _traced_send
+
 # ---------------------------------------------------------------- world
 def build(extra):
     app = Application.__new__(Application)
@@ -121,6 +145,9 @@ def drain():
 
 def obs(exc):
     o = drain()
+    if CALLS:
+        o += CALLS
+        CALLS.clear()
     if StaleCounter.n:
         o.append("stale:%d" % StaleCounter.n)
         StaleCounter.n = 0
@@ -179,6 +206,8 @@ def run_line(line):
     except Exception as e:
         return "cfgerr:" + type(e).__name__
     trxs = app.trx_list.trx_list
+    CUR_APP[0] = app
+    CALLS.clear()
     res = []
     for op in opstr.split(";"):
         t = op.split()
